@@ -1,25 +1,43 @@
 ------------------------------ MODULE GenSrc ------------------------------
 (* C24 -- cffi-gen-src writes exactly what FFI.emit_c_code() produces.
 
-   TLA+ contributes the configuration space and the oracle equation; the generator is not
-   modelled.  A configuration is
+   TLA+ contributes the input/configuration space and the oracle equation; the generator is
+   not modelled.  A configuration is
      sub     "read-sources" | "exec-python"
      inv     "script" (the cffi-gen-src console script) | "module" (python -m cffi.gen_src)
      out     "file" | "stdout" (output argument "-")
      binding "object" | "callable"      how the script binds the FFI   (exec-python only)
      ffivar  "default" | "custom"       --ffi-var given or not         (exec-python only)
-   Equation:  Cli(cfg, name, cdef, prelude) = EmitC(name, cdef, prelude)   for every cfg,
-   where EmitC is FFI().cdef(cdef); set_source(name, prelude); emit_c_code(), and the exit
-   status is 0.  The matrix is written to IOEnv.GENSRC_OUT (one state per configuration). *)
+   A decoration puts an edge case into one of the input texts (where, what): invisible / control
+   code points at the first or last offset (U+FEFF, U+2028, FF, US, DEL, NEL), CR and CRLF line
+   endings, empty files, and inputs the in-process reference REJECTS (syntax error, bad module
+   name, a declaration the generator cannot emit).
+   Equation, both sides:
+     EmitC(name, cdef, prelude) = text   =>  the CLI exits 0 and writes exactly text
+     EmitC(name, cdef, prelude) raises   =>  the CLI exits non-zero and writes nothing
+   for every configuration, where EmitC is FFI().cdef(cdef); set_source(name, prelude);
+   emit_c_code().  The matrix is written to IOEnv.GENSRC_OUT (one state per configuration). *)
 EXTENDS Integers, Sequences, FiniteSets, SequencesExt, Json, IOUtils, TLC
 VARIABLES cfg
 Valid(c) == c.sub = "exec-python" \/ (c.binding = "object" /\ c.ffivar = "default")    \* n/a for read-sources
 Configs == {c \in [sub : {"read-sources", "exec-python"}, inv : {"script", "module"}, out : {"file", "stdout"},
                    binding : {"object", "callable"}, ffivar : {"default", "custom"}] : Valid(c)}
+CodePoints == {"FEFF", "2028", "0C", "1F", "7F", "85", "CR"}
+Decorations ==
+    [where : {"prelude-start", "prelude-end", "cdef-start", "cdef-end"}, what : CodePoints]
+    \cup [where : {"script-start"}, what : {"FEFF"}]                       \* exec-python only
+    \cup [where : {"cdef-mid", "prelude-mid"}, what : {"FEFF"}]
+    \cup [where : {"prelude-all", "cdef-all"}, what : {"CRLF", "CR"}]        \* every line ending replaced
+    \cup [where : {"prelude", "cdef", "both"}, what : {"empty"}]
+    \cup [where : {"cdef"}, what : {"syntax-error", "unemittable"}]          \* the reference raises
+    \cup [where : {"modname"}, what : {"slash", "dotted"}]
 Init == cfg \in Configs
 Next == UNCHANGED cfg
 Spec == Init /\ [][Next]_cfg
-ASSUME JsonSerialize(IOEnv.GENSRC_OUT, SetToSeq(Configs))
-\* the clause, on observations [cfg, status, digest] of one input and the reference digests
-Equal(obs, ref) == \A i \in DOMAIN obs : obs[i].status = 0 /\ obs[i].digest = ref
+ASSUME JsonSerialize(IOEnv.GENSRC_OUT, [configs |-> SetToSeq(Configs), decorations |-> SetToSeq(Decorations)])
+
+\* the clause on one observation o = [status, digest, wrote] given the reference r = [ok, digest]
+Verdict(r, o) == IF r.ok THEN (IF o.status # 0 THEN "status" ELSE IF o.digest # r.digest THEN "bytes" ELSE "ok")
+                 ELSE (IF o.status = 0 THEN "accepted-what-the-reference-rejects"
+                       ELSE IF o.wrote THEN "wrote-output-on-failure" ELSE "ok")
 =============================================================================
